@@ -106,4 +106,38 @@ example :
     let r := session sink 100 (BW.new 16) [List.replicate 10 1, List.replicate 10 2, List.replicate 30 3, [4]]
     (r.1, r.2.2, r.2.1.failed) = ([none, none, some .io, some .io], some .io, true) := by decide +kernel
 
+/-! ## a sink used directly (no `bufio.Writer` of the Writer in between) -/
+
+/-- **direct_sink_fault**: over a directly used sink the property holds exactly as far as every
+    call's error is looked at: if the code checks every call, the session reports an error as soon
+    as some call has failed, and it is that call's error (the first failure).  This is a statement
+    about the SHAPE of the code; that `writer.go` has this shape (every `Write`, `Seek`, `Flush` result
+    is tested before the next call) is evaluated on the implementation by the all-k enumeration
+    over direct sinks (`harness/rob_c19s.go`), not proved: the write sequences of `writeXRefTable`,
+    `writeXRefStream` and the trailer are not modelled. -/
+theorem direct_sink_fault (sink : Sink) (checked : Nat → Bool) (hall : ∀ k, checked k = true) :
+    ∀ (ps : List Bytes) (k : Nat), (directSession sink checked k ps).2 = true →
+      (directSession sink checked k ps).1.isSome = true := by
+  intro ps
+  induction ps with
+  | nil => intro k h; simp [directSession] at h
+  | cons p ps ih =>
+    intro k h
+    unfold directSession at h ⊢
+    cases hs : (sink k p).2 with
+    | none => rw [hs] at h; simp only [] at h ⊢; exact ih (k + 1) h
+    | some e => simp only [hall k, if_true]; rfl
+
+-- … and one unchecked call is enough to lose a one-off failure: three writes, the error of the second
+-- one is not looked at (e.g. it is overwritten by the next `fmt.Fprintf` of a loop whose error is tested
+-- once at the end), the sink fails only there: nothing is reported.  Behind `bufio.Writer` the same
+-- program reports it (`sink_fault`).
+example :
+    let sink : Sink := fun k p => if k = 1 then (0, some .io) else (p.length, none)
+    directSession sink (fun k => k != 1) 0 [[1], [2], [3]] = (none, true) := by decide +kernel
+
+example :
+    let sink : Sink := fun k p => if k = 1 then (0, some .io) else (p.length, none)
+    directSession sink (fun _ => true) 0 [[1], [2], [3]] = (some .io, true) := by decide +kernel
+
 end PdfVerif.C19robsink
